@@ -383,7 +383,8 @@ def cases_for(rng, n):
 
 
 WITNESSES = [
-    # (finding id, lang, cfg, source)
+    # (finding id, lang, cfg, source).  C12-scala-unsigned-depth is FIXED in /repo (recursive unsigned_integer_used): c12_sc_known is
+    # constantly None, so its two witnesses are judged like any other input - an undefined UShort / UByte / UInt is a violation again.
     ('C12-scala-unsigned-depth', 'scala', {'package': 'com.p', 'module_name': 'm'}, '#[typeshare]\npub type Grid = Vec<Vec<u16>>;\n'),
     ('C12-scala-unsigned-depth', 'scala', {'package': 'com.p', 'module_name': 'm'}, '#[typeshare]\npub struct S {\n    pub a: [u8; 2],\n    pub b: &\'static [u32],\n}\n'),
     ('C12-python-alias-typevar', 'python', {}, '#[typeshare]\npub type GA<T> = Vec<T>;\n'),
